@@ -290,6 +290,42 @@ int main(int argc, char ** argv)
       }
     }
     if (bxdecay0::dbd_modes().size() != 24) bad += "dbd_modes() has " + std::to_string(bxdecay0::dbd_modes().size()) + " entries; ";
+    // strings that are not labels must not resolve to a mode: every proper prefix of every label (incl. the empty
+    // string), every label with one character appended / upper-cased / padded, and a request made with such a string
+    // through the by-label setter must be refused at initialisation
+    {
+      std::set<std::string> probes = {"", " ", "foo", "2NUBB", "0NUBB_MN", "2nubb ", " 2nubb"};
+      for (auto & lab : labels) {
+        for (size_t k = 0; k < lab.size(); k++) probes.insert(lab.substr(0, k));
+        probes.insert(lab + "x");
+        probes.insert(lab + "_");
+      }
+      for (auto & pr : probes) {
+        if (labels.count(pr)) continue;
+        n++;
+        bxdecay0::dbd_mode_type m = bxdecay0::dbd_mode_from_label(pr);
+        if (m != bxdecay0::DBDMODE_UNDEF) {
+          bad += "'" + pr + "' is not a mode label but resolves to mode " + std::to_string((int)m) + "; ";
+          if (bad.size() > 600) break;
+        }
+      }
+      for (const char * pr : {"", "0nubb", "2nu", "2nubb_gA", "0nubbM"}) {
+        try {
+          bxdecay0::decay0_generator g;
+          g.set_decay_category(bxdecay0::decay0_generator::DECAY_CATEGORY_DBD);
+          g.set_decay_isotope("Mo100");
+          g.set_decay_dbd_level(0);
+          g.set_decay_dbd_mode_by_label(pr);
+          Forced none;
+          PortRand r;
+          r.s.forced = &none;
+          r.horizon = 3000000;
+          g.initialize(r);
+          bad += std::string("a request made with the non-label '") + pr + "' through set_decay_dbd_mode_by_label is accepted; ";
+        } catch (std::exception &) {
+        }
+      }
+    }
     fprintf(fo, "{\"labels\":%d,\"label_problems\":%s}\n", n, jstr(bad).c_str());
   }
   // process pool, one child per isotope
